@@ -730,7 +730,7 @@ func c16Run(c *core.Ctx) {
 
 func c16Replay(c *core.Ctx, payload json.RawMessage) {
 	var np struct {
-		Family                      string `json:"family"`
+		Family                     string `json:"family"`
 		Outer, Block, Inner, Probe int
 	}
 	if json.Unmarshal(payload, &np) == nil && np.Family == "nested" {
